@@ -70,7 +70,11 @@ CHECKS['C15'] = dict(level='model_checking', ref='DESIGN.md 3.6, 6 (C15)',
    text='Locks.tla models Lock (spin on atomic add / delete), RLock ((owner,count) read-modify-write in a transaction) and BoundedSemaphore at the granularity of atomic cache operations (justified by C05/C06); TLC checks MutualExclusion, SemBound, RLockOwner, FreeWhenNoHolder and, under fairness, that every contender completes its rounds (3 contenders x 2 rounds, nesting 2, value 2). '
         'The real recipes run on threads (shared / own Cache and FanoutCache objects) under the scheduler: all schedules up to 2 preemptions of 2-3 contender programs, PCT/random for 2-4 contenders, barrier, extra releases, and an RLock built before fork released by the child; witness events enter/exit are validated by TLC (LocksTrace.tla).',
    technique='TLA+ lock protocols model-checked by TLC (safety + liveness); scheduler-enumerated executions of the real recipes validated by TLC')
-NOTES = {'C15': CONC_NOTE + ' Contenders in separate processes only in the fork scenario.', 'C19': SEQ_NOTE + ' Return values the contract leaves open (set, delete_many, clear, delete of an expired item) are not compared.', 'C13': SEQ_NOTE + ' Aggregate operations under lock timeouts (FanoutCache._remove resuming after Timeout) are only covered with one shard (C14).', 'C11': CONC_NOTE, 'C12': CONC_NOTE + ' No exhaustive TLC exploration of the Index composition yet (level exploration).', 'C14': CONC_NOTE, 'C07': 'Trusted: SQLite atomic commit / WAL recovery and release of the write lock on process death; kill points are the boundary events of the victim (before each statement, file create/write/close/remove, directory create/remove); the lazy cull of writes is switched off in kill workloads (not observable per call). Deque/Index workloads are killed in C11/C12.', 'C08': CONC_NOTE + ' Faults are not injected into COMMIT/ROLLBACK (SQLite atomic commit trusted) nor into file removal (removing an existing file is assumed to succeed).', 'C05': CONC_NOTE, 'C06': CONC_NOTE, 'C03': SEQ_NOTE, 'C04': SEQ_NOTE, 'C09': SEQ_NOTE, 'C10': SEQ_NOTE}
+CHECKS['C20'] = dict(level='exploration', ref='DESIGN.md 3.6, 6 (C20)',
+   text='RecipesTrace.tla: Averager state (total,count): the pair published by each COMMIT of add must be (total+v, count+1) of the pair committed just before, pop resets, get/pop return a pair committed during the call; throttle: RateBound over the recorded start history (for all i<j: j-i+1 <= count + count/seconds*(t_j-t_i)) and every call let through. '
+        'Averager programs of 2-3 adders/poppers/readers are scheduler-enumerated (threads, shared/own Cache); throttle runs 1-3 callers over burst / idle-then-burst / steady / random arrival patterns under a virtual clock (time_func/sleep_func) with rates 1/1, 2/1, 3/2, 1/2; TLC validates every run.',
+   technique='trace validation by TLC: commit-level refinement for Averager, rate-bound formula over start histories for throttle')
+NOTES = {'C20': CONC_NOTE + ' Start times are rounded outwards to 1/4000 s (sound for the bound); a virtual sleep advances time by at least 1e-6 s.', 'C15': CONC_NOTE + ' Contenders in separate processes only in the fork scenario.', 'C19': SEQ_NOTE + ' Return values the contract leaves open (set, delete_many, clear, delete of an expired item) are not compared.', 'C13': SEQ_NOTE + ' Aggregate operations under lock timeouts (FanoutCache._remove resuming after Timeout) are only covered with one shard (C14).', 'C11': CONC_NOTE, 'C12': CONC_NOTE + ' No exhaustive TLC exploration of the Index composition yet (level exploration).', 'C14': CONC_NOTE, 'C07': 'Trusted: SQLite atomic commit / WAL recovery and release of the write lock on process death; kill points are the boundary events of the victim (before each statement, file create/write/close/remove, directory create/remove); the lazy cull of writes is switched off in kill workloads (not observable per call). Deque/Index workloads are killed in C11/C12.', 'C08': CONC_NOTE + ' Faults are not injected into COMMIT/ROLLBACK (SQLite atomic commit trusted) nor into file removal (removing an existing file is assumed to succeed).', 'C05': CONC_NOTE, 'C06': CONC_NOTE, 'C03': SEQ_NOTE, 'C04': SEQ_NOTE, 'C09': SEQ_NOTE, 'C10': SEQ_NOTE}
 
 checks = []
 for pid, c in sorted(CHECKS.items()):
